@@ -167,6 +167,17 @@ func TestVerifC19Exporter(t *testing.T) {
 				if direct {
 					return
 				}
+				run.mu.Lock()
+				after := false
+				for _, e := range run.evs {
+					if e.kind == "shutreq" {
+						after = true
+					}
+				}
+				run.mu.Unlock()
+				if after {
+					return // a late send: the gauges are unregistered by then
+				}
 				synctest.Wait()
 				size, ok1 := c19Metric(tel, "otelcol_exporter_queue_size")
 				capv, ok2 := c19Metric(tel, "otelcol_exporter_queue_capacity")
